@@ -195,6 +195,8 @@ inductive RenderFail where
   | indexError
   deriving DecidableEq, Repr
 
+deriving instance DecidableEq for Except
+
 /-- `SyntaxClass` → `error_type`. -/
 def SyntaxClass.errorType : SyntaxClass → Str
   | .undefinedMacro => "undefined string".toList
